@@ -15,7 +15,7 @@ CONSTANTS
   NoResetOnDrop = FALSE
   BugStartPlus2 = FALSE
   BugNoFallback = FALSE
-  LazyRunner = FALSE
+  LazyRunner = TRUE
   NoRunnerStart = FALSE
   BugIgnoreBelowReq = FALSE
 INVARIANTS TypeOK SafeLedger
